@@ -130,7 +130,9 @@ def run_unit(unit_path, repo=None, rlimit=None, seed=None, threads=4, twins=Fals
                 for ln in range(sp['line_start'], sp['line_end'] + 1):
                     if ln in g.line_label:
                         labels.append(g.line_label[ln])
-            if sp.get('is_primary'):
+            if sp.get('is_primary') and prim_fn is None:
+                prim_fn = g.line_fn.get(sp['line_start'])
+            if lab.startswith(('at the end of', 'at this exit', 'at this loop exit')):
                 prim_fn = g.line_fn.get(sp['line_start'])
         if prim_fn is None and spans:
             prim_fn = g.line_fn.get(spans[0]['line_start'])
